@@ -341,16 +341,23 @@ PROPS = {
     "C16": dict(
         level="other",
         lemmas=[],
-        functions=[M_AF + "FileAnonymizer.anonymize_io", M_NC + "main"],
+        functions=[M_AF + "FileAnonymizer.anonymize_io", M_AF + "anonymize_files@impl", M_NC + "main"],
         standins=[("rt_files", "C16")],
         design_ref="7/C16",
-        technique="contract on anonymize_io (reading fails before any state change or write: exceptional "
-                  "postcondition) and on main (anonymize_files is the only writer, called once) by pyvc; directory walk, "
-                  "path mirroring and what the OS leaves on disk are checked bounded",
+        technique="contracts on anonymize_io (reading fails before any state change or write: exceptional "
+                  "postcondition), on anonymize_files (ghost trace of open/makedirs per file, mirrored-path invariant of "
+                  "the walk loop, no exception escapes the per-file loop) and on main (anonymize_files is the only "
+                  "writer, called once) by pyvc over an assumed model of os/open (E-os); what the OS leaves on disk and "
+                  "that every non-hidden file is listed exactly once are checked bounded",
         text="Proved: a file whose reading fails leaves the shared secret lookup and the output stream untouched "
-             "(fault isolation at the stream level) and every entry point funnels into anonymize_io.  NOT decidable by "
-             "contracts within reach: os.walk / open / makedirs effects - bounded over generated trees with hidden "
-             "files, Unicode names, undecodable bytes early and late, pre-existing outputs and a directory in the way.",
-        note="E-os; anonymize_files itself (os.walk loop, try/except per file) is not under contract",
+             "(fault isolation at the stream level); in anonymize_files every (input, output) pair is the named pair or "
+             "the same non-hidden name under the same relative directory of input and output root, each iteration "
+             "opens only its own input for reading and its own output for writing and creates only the output's parent "
+             "directory, no failure of one file escapes the loop (only the initial rejection, before any open, and an "
+             "unwritable map file, after all files), and every entry point funnels into anonymize_io.  NOT decidable "
+             "by contracts within reach: what os.walk lists and what open/makedirs leave on disk (E-os is an assumed "
+             "model), completeness/multiplicity of the file list - bounded over generated trees with hidden files, "
+             "Unicode names, undecodable bytes early and late, pre-existing outputs and a directory in the way.",
+        note="E-os (os.path.*, os.walk, os.makedirs, open as uninterpreted observations with a ghost call record)",
     ),
 }
